@@ -1100,6 +1100,9 @@ impl Engine for Net {
                     let r = wide(th, n);
                     if r != format!("wide ok inits={n}/{n} hits={n}/{n} then={}/{}", n.min(3), n.min(3)) {
                         out.monitor.push(("C04".into(), format!("a flat bench of {n} models on {th} thread(s): init, then one event per model due at the same time, then step: `{r}` — a call returned Ok although computations it had triggered never ran (every model must run its init and handle its event)")));
+                        if r.starts_with("wide ") && !r.contains(&format!("inits={n}/{n}")) && !r.starts_with("wide init-") {
+                            out.monitor.push(("C16".into(), format!("a flat bench of {n} models on {th} thread(s): SimInit::init returned Ok but not every model ran its init exactly once: `{r}`")));
+                        }
                     }
                     out.nontrivial = true;
                     out.tags.push(format!("wide.{}", if n > 128 { "over-one-bucket" } else { "small" }));
@@ -1456,7 +1459,7 @@ fn gen_case(rng: &mut Rng, _idx: usize, tier: Tier, focus: &str) -> Case {
         let kind = *rng.pick(&["clean", "lose", "deadlock", "panic"]);
         return Case { lines: vec!["case net exec st".into(), format!("nestrun {} {kind} {}", rng.pick(&[1u64, 1, 2, 4]), rng.range(1, 3))] };
     }
-    if (focus == "C04" && rng.chance(1, 12)) || rng.chance(1, 80) {
+    if ((focus == "C04" || focus == "C16") && rng.chance(1, 12)) || rng.chance(1, 80) {
         // many models / many simultaneous events: more tasks than one injector bucket or one local queue holds
         let n = *rng.pick(&[1u64, 7, 100, 127, 128, 129, 130, 200, 257, 300, 520, 700]);
         return Case { lines: vec!["case net exec st".into(), format!("wide {} {n}", rng.pick(&[1u64, 2, 2, 3, 4, 8]))] };
